@@ -1,2 +1,4 @@
 -- Root of the `BromeliaVerif` library (models, specifications, generated tables, property theorems).
 import BromeliaVerif.Properties.C17
+import BromeliaVerif.Properties.C18
+import BromeliaVerif.Properties.C20
